@@ -32,36 +32,62 @@ def _npoly(item):
         corpus.first_model_lines(corpus.load(item)))))
 
 
-def gen_cfg(rng):
-    """A small, fast cfg; axes chosen to differ where runs could share state."""
+STRUCTURE_KEYS = ("item", "window", "waters", "damage", "rename", "chains", "input_name")
+
+
+def _residue_ids(cfg):
+    """chain:resnum labels of the polymer residues of a cfg's structure (PROPKA syntax)."""
+    text = corpus.structure_text({k: v for k, v in cfg.items() if k in STRUCTURE_KEYS})
+    out = []
+    for g in corpus.polymer_groups(corpus.residue_groups(text.splitlines())):
+        chain, resseq = g["key"][0], g["key"][1][:4].strip()
+        if chain.strip() and resseq.lstrip("-").isdigit():
+            out.append(f"{chain}:{resseq}")
+    return out
+
+
+def gen_cfg(rng, structure=None):
+    """A small, fast cfg; axes chosen to differ where runs could share state.  With
+    `structure` the structure fields are taken from that cfg (a *sibling*: same input
+    bytes, different options), which is what stresses caches keyed on too little."""
     r = rng.random()
-    if r < 0.06:
+    if structure is None and r < 0.06:
         return {"item": "1FAS.cif", "argv": [f"--ff={rng.choice(FFS)}"]}
-    if r < 0.10:
+    if structure is None and r < 0.10:
         return {"item": "cterm_hid_out.pqr", "input_name": "in.pdb",
                 "argv": [f"--ff={rng.choice(FFS[:3])}"] + (["--assign-only"] if rng.random() < 0.5 else [])}
-    tot = sum(w for _, w in ITEMS)
-    x = rng.uniform(0, tot)
-    for item, w in ITEMS:
-        x -= w
-        if x <= 0:
-            break
-    cfg = {"item": item}
-    npoly = _npoly(item)
-    whole_ok = item in ("cterm_hid.pdb", "5vav_cyclic_peptide.pdb")
-    if not (whole_ok and rng.random() < 0.5):
-        n = rng.randint(4, 14)
-        cfg["window"] = [rng.randint(0, max(0, npoly - n)), n]
-        cfg["waters"] = rng.choice([0, 0, 4, 10])
-    nres = cfg["window"][1] if cfg.get("window") else npoly
-    if rng.random() < 0.25:
-        cfg["damage"] = [[rng.randint(0, nres - 1), rng.choice(["drop_tail", "keep_backbone"])]]
-    if rng.random() < 0.25:
-        cfg["rename"] = [[rng.randint(0, nres - 1),
-                          rng.choice(["HID", "HIE", "HIP", "ASH", "GLH", "LYN", "CYM", "HSD"])]]
-    if rng.random() < 0.4 and nres >= 6:
-        k = rng.choice([2, 2, 3]) if nres >= 9 else 2
-        cfg["chains"] = rng.sample(["A", "B", "C", "D", "X", "Q", "a", "b", "1", "2"], k)
+    if structure is not None:
+        cfg = {k: structure[k] for k in STRUCTURE_KEYS if k in structure}
+        item = cfg["item"]
+        if item.endswith((".cif", ".pqr")):
+            cfg["argv"] = [f"--ff={rng.choice(FFS)}"]
+            return cfg
+        npoly = _npoly(item)
+        nres = cfg["window"][1] if cfg.get("window") else npoly
+    else:
+        tot = sum(w for _, w in ITEMS)
+        x = rng.uniform(0, tot)
+        for item, w in ITEMS:
+            x -= w
+            if x <= 0:
+                break
+        cfg = {"item": item}
+        npoly = _npoly(item)
+        whole_ok = item in ("cterm_hid.pdb", "5vav_cyclic_peptide.pdb")
+        if not (whole_ok and rng.random() < 0.5):
+            n = rng.randint(4, 14)
+            cfg["window"] = [rng.randint(0, max(0, npoly - n)), n]
+            cfg["waters"] = rng.choice([0, 0, 4, 10])
+        nres = cfg["window"][1] if cfg.get("window") else npoly
+        if rng.random() < 0.3:
+            cfg["damage"] = [[rng.randint(0, nres - 1), rng.choice(["drop_tail", "keep_backbone"])]
+                             for _ in range(rng.choice([1, 1, 2]))]
+        if rng.random() < 0.25:
+            cfg["rename"] = [[rng.randint(0, nres - 1),
+                              rng.choice(["HID", "HIE", "HIP", "ASH", "GLH", "LYN", "CYM", "HSD"])]]
+        if rng.random() < 0.4 and nres >= 6:
+            k = rng.choice([2, 2, 3]) if nres >= 9 else 2
+            cfg["chains"] = rng.sample(["A", "B", "C", "D", "X", "Q", "a", "b", "1", "2"], k)
     argv = []
     r = rng.random()
     if r < 0.12:
@@ -73,9 +99,23 @@ def gen_cfg(rng):
         argv.append(f"--ff={ff}")
     if ff and rng.random() < 0.25:
         argv.append(f"--ffout={rng.choice(FFS[:5])}")
-    if rng.random() < 0.25:
+    propka_p = 0.3
+    if structure is not None and any(a.startswith("--titration") for a in structure.get("argv", [])):
+        propka_p = 0.8
+    if rng.random() < propka_p:
         argv += ["--titration-state-method=propka",
                  f"--with-ph={rng.choice([2.0, 4.5, 7.0, 9.0, 12.0])}"]
+        k = rng.random()
+        if k < 0.25:
+            ids = _residue_ids(cfg)
+            if ids:
+                argv.append("--titrate_only=" + ",".join(
+                    sorted(rng.sample(ids, min(len(ids), rng.randint(1, 4))))))
+        elif k < 0.45:
+            argv.append("--parameters={propkacfg}")
+            cfg.setdefault("files", {})["propkacfg"] = "propka-alt.cfg"
+        elif k < 0.55:
+            argv.append(f"--reference={rng.choice(['low-pH', 'high-pH'])}")
     if ff == "PARSE":
         if rng.random() < 0.4:
             argv.append("--neutraln")
@@ -105,6 +145,98 @@ def gen_cfg(rng):
     if rng.random() < 0.08:
         cfg["input_mode"] = "pdbid"
     cfg["argv"] = argv
+    return cfg
+
+
+def one_axis_sibling(rng, base):
+    """A cfg that differs from `base` along exactly one option axis (same structure).
+    Two runs that differ in a single axis are what exposes state keyed on too little."""
+    cfg = json.loads(json.dumps(base))
+    argv = list(cfg.get("argv", []))
+    if cfg["item"].endswith((".cif", ".pqr")):
+        cfg["argv"] = [f"--ff={rng.choice(FFS)}"]
+        return cfg
+    has = lambda pfx: any(a.startswith(pfx) for a in argv)  # noqa: E731
+
+    def drop(pfx):
+        return [a for a in argv if not a.startswith(pfx)]
+
+    propka = has("--titration-state-method")
+    axes = ["ff", "flag", "flag"]
+    if propka:
+        axes += ["ph", "ph", "titrate_only", "titrate_only", "parameters", "parameters",
+                 "reference", "nopropka"]
+    else:
+        axes += ["propka"]
+    if has("--ff="):
+        axes += ["ffout", "userff", "ligand"]
+    if has("--userff"):
+        axes += ["userff-content", "userff-content", "userff-content"]
+    ax = rng.choice(axes)
+    if ax == "ff" and has("--ff="):
+        cur = [a for a in argv if a.startswith("--ff=")][0]
+        new = rng.choice([f for f in FFS if f"--ff={f}" != cur])
+        argv = [f"--ff={new}" if a == cur else a for a in argv]
+        if new != "PARSE":
+            argv = [a for a in argv if a not in ("--neutraln", "--neutralc")]
+    elif ax == "flag":
+        flag = rng.choice(["--nodebump", "--noopt", "--drop-water", "--whitespace",
+                           "--keep-chain", "--include-header"])
+        argv = drop(flag) if flag in argv else argv + [flag]
+    elif ax == "ph":
+        argv = drop("--with-ph") + [f"--with-ph={rng.choice([1.0, 2.0, 3.5, 10.5, 12.0, 13.5])}"]
+    elif ax == "titrate_only":
+        ids = _residue_ids(cfg)
+        argv = drop("--titrate_only")
+        if ids:
+            argv.append("--titrate_only=" + ",".join(
+                sorted(rng.sample(ids, min(len(ids), rng.randint(1, 3))))))
+    elif ax == "parameters":
+        if has("--parameters"):
+            argv = drop("--parameters")
+            (cfg.get("files") or {}).pop("propkacfg", None)
+        else:
+            argv.append("--parameters={propkacfg}")
+            cfg.setdefault("files", {})["propkacfg"] = "propka-alt.cfg"
+    elif ax == "reference":
+        argv = drop("--reference") + [f"--reference={rng.choice(['low-pH', 'high-pH'])}"]
+    elif ax == "nopropka":
+        argv = [a for a in argv if not a.startswith(("--titration", "--with-ph", "--titrate_only",
+                                                     "--parameters", "--reference"))]
+        (cfg.get("files") or {}).pop("propkacfg", None)
+    elif ax == "propka":
+        argv += ["--titration-state-method=propka",
+                 f"--with-ph={rng.choice([2.0, 4.5, 7.0, 12.0])}"]
+    elif ax == "ffout":
+        argv = drop("--ffout") + ([] if has("--ffout") else [f"--ffout={rng.choice(FFS[:5])}"])
+    elif ax == "userff":
+        argv = drop("--ff=") + ["--userff={userff}", "--usernames={usernames}"]
+        argv = [a for a in argv if not a.startswith("--ffout") and a not in (
+            "--neutraln", "--neutralc")]
+        cfg.setdefault("files", {}).update({"userff": "custom-ff.dat",
+                                            "usernames": "custom.names"})
+    elif ax == "userff-content":
+        # same file name, different (still valid, still neutral) parameters: a radius tweak
+        fc = dict(cfg.get("file_content") or {})
+        if "userff" in fc:
+            fc.pop("userff")
+        else:
+            res, atom, old_r = rng.choice([("ALA\tCB\t-0.182500\t", "1.9080", None),
+                                           ("GLY\tCA\t-0.025200\t", "1.9080", None),
+                                           ("LYS\tCE\t-0.014300\t", "1.9080", None),
+                                           ("SER\tCB\t0.211700\t", "1.9080", None)])
+            fc["userff"] = {"kind": "replace", "old": res + atom, "new": res + "2.2222"}
+        if fc:
+            cfg["file_content"] = fc
+        else:
+            cfg.pop("file_content", None)
+    elif ax == "ligand" and not has("--ligand"):
+        lig = rng.choice(["1US0-ligand.mol2", "ethanol.mol2"])
+        argv.append("--ligand={ligand}")
+        cfg.setdefault("files", {})["ligand"] = lig
+    cfg["argv"] = argv
+    if not cfg.get("files"):
+        cfg.pop("files", None)
     return cfg
 
 
@@ -189,7 +321,10 @@ def gen_history(seed, pool):
                         "entry": rng.choice(["run_pdb2pqr", "main_driver"])})
             continue
         entry = rng.choice(["run_pdb2pqr", "run_pdb2pqr", "main_driver", "main_driver_reuse"])
-        ops.append({"op": "run", "cfg_index": ci, "entry": entry})
+        op = {"op": "run", "cfg_index": ci, "entry": entry}
+        if entry != "main_driver_reuse" and rng.random() < 0.35:
+            op["stable"] = True
+        ops.append(op)
         done.append(ci)
     # make sure the history is non-trivial: at least one revisit after something else
     if done:
@@ -276,6 +411,13 @@ def job_history(job, scratch):
                 os.remove(os.path.join(outdir, "out.pqr"))
             except OSError:
                 pass
+        elif op.get("stable"):
+            # same paths, new contents: inputs are overwritten in place between runs
+            scdir = os.path.join(scratch, "stable")
+            outdir = os.path.join(scdir, "out")
+            idx = 0
+            c12.world_cleanup(os.path.join(scdir, "in-0"))
+            c12.world_cleanup(outdir)
         else:
             scdir = os.path.join(scratch, f"op-{i}")
             outdir = None
@@ -289,7 +431,7 @@ def job_history(job, scratch):
                     "sha": runner.sha(data), "len": len(data) if data is not None else None,
                     "fired": len(o["fired"]), "fired_kinds": sorted(
                         {(f.get("kind") or f["k"]) for f in o["fired"]})})
-        if entry != "main_driver_reuse":
+        if entry != "main_driver_reuse" and not op.get("stable"):
             c12.world_cleanup(scdir)
     return {"obs": obs}
 
@@ -356,23 +498,51 @@ def main(tier, seed):
     t0 = time.monotonic()
     quick = tier == "quick"
     rng = random.Random(seed * 7919 + 17)
-    n_pool = 48 if quick else 400
-    n_hist = 200 if quick else 6000
+    n_pool = 84 if quick else 600
+    n_hist = 220 if quick else 6000
     deadline = t0 + (200 if quick else 45 * 60)
+    # the pool is made of families: a base cfg plus 1-2 siblings on the same structure
     pool = []
+    families = []
     seen = set()
     while len(pool) < n_pool:
-        c = gen_cfg(rng)
-        k = corpus.cfg_key(c)
-        if k not in seen:
-            seen.add(k)
-            pool.append(c)
-    # each history sees only its own slice of the pool (keeps job messages small)
+        base = gen_cfg(rng)
+        fam = []
+        sibs = [one_axis_sibling(rng, base)]
+        if rng.random() < 0.5:
+            sibs.append(one_axis_sibling(rng, sibs[0]))
+        if rng.random() < 0.3:
+            sibs.append(gen_cfg(rng, structure=base))
+        for c in [base] + sibs:
+            k = corpus.cfg_key(c)
+            if k not in seen:
+                seen.add(k)
+                fam.append(len(pool))
+                pool.append(c)
+        if fam:
+            families.append(fam)
+    n_pool = len(pool)
+    # each history sees two or three whole families (keeps job messages small)
     hists = []
+    # family sweeps: every ordered pair of same-structure, one-axis-apart cfgs occurs
+    # (A B C C B A), systematically rather than by luck
+    for fi, fam in enumerate(families):
+        if len(fam) < 2:
+            continue
+        r3 = random.Random(seed * 1_000_003 + 777 + fi)
+        order = list(range(len(fam)))
+        r3.shuffle(order)
+        sub = [pool[i] for i in fam]
+        ops = [{"op": "run", "cfg_index": j, "entry": "run_pdb2pqr"} for j in order + order[::-1]]
+        if fi % 2:
+            for op in ops:
+                op["stable"] = True
+        hists.append({"id": f"hf{fi}", "kind": "c11.history", "seed": seed * 1_000_003 + 777 + fi,
+                      "ops": ops, "pool": sub})
     for h in range(n_hist):
         hs = seed * 1_000_003 + h
         r2 = random.Random(hs ^ 0x5EED)
-        sub = sorted(r2.sample(range(n_pool), 6))
+        sub = sorted(i for f in r2.sample(families, min(len(families), 3)) for i in f)[:8]
         subpool = [pool[i] for i in sub]
         ops = gen_history(hs, subpool)
         hists.append({"id": f"h{h}", "kind": "c11.history", "seed": hs, "ops": ops,
